@@ -551,6 +551,13 @@ func vJudgeC20(snap, pre, got vFSC20, sel vSelC20, del bool) vVerdictC20 {
 		if s && vDepthC20(p) >= 2 {
 			v.nt = true
 		}
+		// the two situations restic is known to mishandle, counted whatever the outcome
+		if s && sel.selected(top) && !left(path.Dir(top)) {
+			cls["gen:selected-stale-in-dir-never-left"] = true
+		}
+		if s && !sel.selected(top) {
+			cls["gen:selected-stale-inside-unselected-stale-dir"] = true
+		}
 		switch {
 		case s && !have:
 			cls["del:selected-removed"] = true
